@@ -549,6 +549,8 @@ func init() {
 		r := c.fresh("idx", "Int")
 		c.assume(st, sAnd(sx("<=", "(- 1)", r), sx("<", r, sx("slen", s.S))))
 		c.assume(st, sImp(sx(">=", r, "0"), sx("=", sx("sat", s.S, r), b.S)))
+		// the first occurrence: no earlier byte (no byte at all when the result is -1) equals b
+		c.assume(st, fmt.Sprintf("(forall ((j Int)) (! (=> (and (<= 0 j) (< j (ite (>= %s 0) %s (slen %s)))) (not (= (sat %s j) %s))) :pattern ((sat %s j))))", r, r, s.S, s.S, b.S, s.S))
 		return Val{K: KInt, S: r, T: types.Typ[types.Int]}
 	}
 	externs["bytes.HasPrefix"] = func(c *FnCtx, st *State, call *ast.CallExpr, recv *Val, args []Val) Val {
